@@ -1,7 +1,8 @@
 """
 C10  Loop-range helpers match Fortran DO-loop iteration semantics.
 
-Clause decided: the enumeration helper treats the sign of the step.
+Clauses decided: the enumeration helper treats the sign of the step (R1-R3); the four
+symbolic helpers return the DO-loop formulas (R4-R6).
  R1  a three-argument ``range(start, stop + k, step)`` built from a LoopRange
      with a *constant* inclusive-bound adjustment ``k`` must be control-dependent
      on the sign of ``step`` (or derive the adjustment from it): for a negative
